@@ -715,7 +715,9 @@ func genProject(r *rng.R, nPerturb int) (pProject, []string) {
 				}
 			}
 			applied = append(applied, "same-route-other-controller")
-			if (r.Bool() || g.sharedNames) && len(p.Controllers[1].Annots) > 0 {
+			if g.sharedNames && len(p.Controllers[1].Annots) > 0 {
+				// (C15's stream only: two operations on one verb + path are outside what the other properties quantify over -
+				// C01's iff is stated under NoVerbPathCollision)
 				// … and under the SAME prefix: the two methods (of two controllers, possibly with one Go name) serve one
 				// verb + path, each of them must get its `route-conflict` warning
 				for _, a := range p.Controllers[0].Annots {
